@@ -94,7 +94,11 @@ class Checker:
         self.obl = []                  # (id, ok, where, message)
         self.nested = {}               # name -> FunctionDef / Lambda (per function under check)
         self.fn = ''
+        self.cur_method = ''
         self.count = 0
+        self.cls_methods = {}          # methods of the class under check: a call self._m(..) of one that touches the permit is inlined
+        self.ret_stack = []            # permits at the `return` points of the method being inlined
+        self.depth = 0
 
     # ---- expressions: find R calls / nested uses in evaluation order ----------------------------------------------------
     def expr(self, e, permit):
@@ -116,7 +120,8 @@ class Checker:
                     f = node.args[0]
                     body = self.resolve(f)
                     if body is None:
-                        if attr_chain(f) and '_sock' in attr_chain(f):
+                        fc = attr_chain(f)
+                        if fc and ('_sock' in fc or (len(fc) == 2 and fc[1].startswith('send_'))):
                             # a bound socket method handed to _send: it runs holding the permit (nothing to check inside)
                             permit = False
                             continue
@@ -127,6 +132,15 @@ class Checker:
                 if isinstance(node.func, ast.Name) and node.func.id in self.nested:
                     permit = self.run_callable(self.nested[node.func.id], permit)
                     continue
+                if c and len(c) == 2 and c[0] == 'self' and c[1] in self.cls_methods and c[1] != self.cur_method:
+                    callee = self.cls_methods[c[1]]
+                    if self.touches(callee.body):
+                        # a private helper of the same class that waits on the policer and / or sends: its body is checked here,
+                        # with the permit of the call site (one call level per step, at most three deep)
+                        if self.depth >= 3:
+                            raise Unsupported("helper methods nested more than three deep at line %d" % node.lineno)
+                        permit = self.inline(callee, permit)
+                        continue
                 # a nested function handed to something else (e.g. loop.add_writer(fd, callback)): it may run from here on
                 for a in list(node.args) + [k.value for k in node.keywords]:
                     if isinstance(a, ast.Name) and a.id in self.nested:
@@ -160,7 +174,27 @@ class Checker:
             return self.nested[f.id]
         if isinstance(f, ast.Lambda):
             return f
+        c = attr_chain(f)
+        if c and len(c) == 2 and c[0] == 'self' and c[1] in self.cls_methods:
+            return self.cls_methods[c[1]]     # a bound method of the same class handed over as the callable
         return None
+
+    def inline(self, m, permit):
+        self.ret_stack.append([])
+        saved = self.nested
+        self.nested = dict(saved)
+        for st in ast.walk(m):
+            if st is not m and isinstance(st, (ast.FunctionDef, ast.AsyncFunctionDef)):
+                self.nested[st.name] = st
+        self.depth += 1
+        try:
+            r = self.block(m.body, permit)
+        finally:
+            self.depth -= 1
+            self.nested = saved
+            rets = self.ret_stack.pop()
+        outs = rets + ([r] if r is not None else [])
+        return all(outs) if outs else False
 
     def contains_request(self, node):
         for n in ast.walk(node):
@@ -168,12 +202,20 @@ class Checker:
                 return True
         return False
 
-    def touches(self, stmts):
+    def touches(self, stmts, _seen=None):
+        _seen = _seen if _seen is not None else set()
         for st in stmts:
             if guard_kind(st):
                 return True
             for n in ast.walk(st):
+                if guard_kind(n):
+                    return True
                 if isinstance(n, ast.Call):
+                    cc = attr_chain(n.func)
+                    if cc and len(cc) == 2 and cc[0] == 'self' and cc[1] in self.cls_methods and cc[1] not in _seen and cc[1] not in ('_send', '_recv'):
+                        _seen.add(cc[1])
+                        if self.touches(self.cls_methods[cc[1]].body, _seen):
+                            return True
                     if is_request_call(n, self.reqs) or (self.send_param and isinstance(n.func, ast.Name) and n.func.id == self.send_param):
                         return True
                     c = attr_chain(n.func)
@@ -189,6 +231,8 @@ class Checker:
     def run_callable(self, f, permit):
         if isinstance(f, ast.Lambda):
             return self.expr(f.body, permit)
+        if f.name in self.cls_methods and self.cls_methods[f.name] is f:
+            return self.inline(f, permit)
         r = self.block(f.body, permit)
         return False if r is None else r
 
@@ -212,7 +256,9 @@ class Checker:
         if isinstance(st, (ast.Assign, ast.AnnAssign, ast.AugAssign)):
             return self.expr(st.value, permit)
         if isinstance(st, ast.Return):
-            self.expr(st.value, permit)
+            p = self.expr(st.value, permit)
+            if self.ret_stack:
+                self.ret_stack[-1].append(p)
             return None
         if isinstance(st, ast.Raise):
             self.expr(st.exc, permit)
@@ -274,10 +320,12 @@ class Checker:
             raise Unsupported("statement %s at %s:%d contains a request call" % (type(st).__name__, self.path, st.lineno))
         return permit
 
-    def check_function(self, cls, fn):
+    def check_function(self, cls, fn, cls_def=None):
         self.fn = "%s.%s" % (cls, fn.name)
         self.count = 0
         self.nested = {}
+        self.cur_method = fn.name
+        self.cls_methods = {m.name: m for m in (cls_def.body if cls_def is not None else []) if isinstance(m, (ast.FunctionDef, ast.AsyncFunctionDef))}
         POLICER_ALIASES.clear()
         for st in ast.walk(fn):
             if isinstance(st, ast.Assign) and len(st.targets) == 1 and isinstance(st.targets[0], ast.Name):
@@ -332,7 +380,14 @@ def main():
                     has = ck.contains_request(m) or any(isinstance(n, ast.Call) and (attr_chain(n.func) or [''])[-1] == '_send' for n in ast.walk(m))
                     if not has:
                         continue
-                    ck.check_function(cls.name, m)
+                    if m.name.startswith('_') and not m.name.startswith('__') and m.name not in ('_send', '_recv'):
+                        # a private helper that other methods of the class call (or hand over as a callable) is checked at those
+                        # places, with the permit held there
+                        used = [mm.name for mm in cls.body if isinstance(mm, (ast.FunctionDef, ast.AsyncFunctionDef)) and mm is not m
+                                and any(attr_chain(n) == ['self', m.name] for n in ast.walk(mm) if isinstance(n, ast.Attribute))]
+                        if used:
+                            continue
+                    ck.check_function(cls.name, m, cls)
                     for (oid, ok, where, msg) in ck.obl:
                         n_req += 1
                         out['obligations'].append(dict(id="%s:%s" % (kind, oid), fn="%s :: %s.%s" % (f, cls.name, m.name), ok=ok, where=where, message=msg))
@@ -424,6 +479,9 @@ def main():
                 c = attr_chain(e)
                 return bool(c) and '.'.join(c) in aliases
 
+            d_methods = {mm.name: mm for c2, mm in methods(trees[f]) if c2.name == 'SnmpSession'}
+            d_seen = set()
+
             def scan(stmts):
                 for st in stmts:
                     if isinstance(st, ast.If):
@@ -447,6 +505,12 @@ def main():
                     for n in ast.walk(st):
                         if isinstance(n, ast.Call):
                             c = attr_chain(n.func)
+                            if c and len(c) == 2 and c[0] == 'self' and c[1] in d_methods and c[1] not in ('refresh', '_send', '_recv') and c[1] not in d_seen:
+                                # a private helper of the session: its statements happen here
+                                d_seen.add(c[1])
+                                scan(d_methods[c[1]].body)
+                                d_seen.discard(c[1])
+                                continue
                             if on_sock(c, 'refresh'):
                                 events.append(('roundtrip', n.lineno, n))
                             if c and c[-1] in ('_send', '_recv') and n.args:
@@ -456,7 +520,9 @@ def main():
                             if on_sock(c, 'set_keys'):
                                 events.append(('set_keys', n.lineno, n))
             scan(m.body)
-            events.sort(key=lambda e: e[1])
+            # order of occurrence = order of traversal (a helper's statements happen where it is called); the position replaces the line
+            events = [(k, i, nd, ln) for i, (k, ln, nd) in enumerate(events)]
+            events = [(k, i, nd) for (k, i, nd, ln) in events]
             sk = [e for e in events if e[0] == 'set_keys']
             fn = "%s :: SnmpSession.refresh" % f
             if len(sk) != 1:
@@ -483,7 +549,21 @@ def main():
                 raise Unsupported("%s %s.%s is gone" % (f, itname, meth))
             bad = []
             n_assign = 0
-            for n in ast.walk(m):
+            # the frame is a property of the CLASS: whichever method of the iterator touches the buffer (the refill may live in a
+            # private helper) may only assign it the socket result or pop from it; __init__ may set it to an empty list
+            cls_nodes = []
+            for c3, mm in methods(trees[f]):
+                if c3.name != itname:
+                    continue
+                for n in ast.walk(mm):
+                    if mm.name == '__init__' and isinstance(n, (ast.Assign, ast.AnnAssign)):
+                        tg = n.targets if isinstance(n, ast.Assign) else [n.target]
+                        if any(attr_chain(t) == ['self', '_buffer'] for t in tg):
+                            if not (isinstance(n.value, ast.List) and not n.value.elts):
+                                bad.append(n.lineno)
+                            continue
+                    cls_nodes.append(n)
+            for n in cls_nodes:
                 if isinstance(n, (ast.Assign, ast.AugAssign, ast.AnnAssign)):
                     tgts = n.targets if isinstance(n, ast.Assign) else [n.target]
                     for t in tgts:
